@@ -1706,7 +1706,11 @@ public:
 	 * true. At least here, we skip the cases where either p or
 	 * q does not have at least one allocation site.
 	 **/
-	if (!lhs_as.is_bottom() && !rhs_as.is_bottom()) {
+	if (!lhs_as.is_bottom() && !rhs_as.is_bottom() &&
+	    // Two null references are equal whatever their allocation
+	    // sites are: one of them must be known to be non-null.
+	    (is_null_ref(ref_cst.lhs()).is_false() ||
+	     is_null_ref(ref_cst.rhs()).is_false())) {
 	  allocation_sites inter = lhs_as & rhs_as;
 	  if (inter.is_bottom()) {
 	    // if they do not have any common allocation site then
@@ -2071,7 +2075,11 @@ public:
           auto op1_as = m_alloc_env.at(rhs.lhs());
           auto op2_as = m_alloc_env.at(rhs.rhs());
           // -- See note about soundness in ref_asume.
-          if (!op1_as.is_bottom() && !op2_as.is_bottom()) {
+          if (!op1_as.is_bottom() && !op2_as.is_bottom() &&
+              // Two null references are equal whatever their allocation
+              // sites are: one of them must be known to be non-null.
+              (is_null_ref(rhs.lhs()).is_false() ||
+               is_null_ref(rhs.rhs()).is_false())) {
             allocation_sites inter = op1_as & op2_as;
             if (inter.is_bottom()) {
               // if they do not have any common allocation site then
